@@ -333,6 +333,28 @@ class Pairs(Driver):
         return evs
 
 
+class Admin(Flow):
+    """C20: FLOW states (0, 1, 2 queued pull requests, after a queue merge)
+    x every admin job of spec['admin_jobs'].  A successful create/delete
+    branch ends the history."""
+    def __init__(self, spec):
+        super().__init__(spec)
+        from .world import LAYOUTS
+        self.layout_dests = {b for b, _ in
+                             LAYOUTS[self.config.layout]['branches']}
+
+    def enabled(self, w, state):
+        from .monitors import dests
+        if set(dests(state)) != self.layout_dests:
+            return []          # a branch was created or deleted: terminal
+        if state['pending']:
+            return [['run_pending', 0]]
+        evs = super().enabled(w, state)
+        for job in self.spec.get('admin_jobs', []):
+            evs.append(list(job))
+        return evs
+
+
 class Script(Driver):
     """A fixed history (spec['script']) followed event by event; deviations
     of kind spec['faults'] on the job transitions listed in
@@ -363,4 +385,4 @@ class Script(Driver):
 
 REGISTRY = {'flow': Flow, 'flow_faults': FlowFaults, 'repeat': Repeat,
             'script': Script, 'child': Child, 'reset': Reset, 'hold': Hold,
-            'pairs': Pairs}
+            'pairs': Pairs, 'admin': Admin}
